@@ -143,6 +143,14 @@ impl<'a> BlockFiltersProcess<'a> {
                     let errmsg = "cached block filter hashes is empty";
                     return StatusCode::Ignore.with_context(errmsg);
                 }
+                // The cached block filter hashes are provided by a single peer, and they are
+                // only checked against the next check point when they reach it.
+                if (cached_block_filter_hashes.len() as BlockNumber)
+                    < next_cached_check_point_number - cached_check_point_number
+                {
+                    let errmsg = "cached block filter hashes are not checked yet";
+                    return StatusCode::Ignore.with_context(errmsg);
+                }
                 if start_number == cached_check_point_number + 1 {
                     let cached_check_point = self
                         .filter
